@@ -754,3 +754,206 @@ pub fn gen_tokens(seed: u64, tier: &str) -> Vec<String> {
     }
     out.lines
 }
+
+/// split a string into a tree: tokens of the given chunk sizes (in chars), some wrapped in nodes,
+/// with empty tokens and empty nodes sprinkled in
+fn chunk_tree(s: &str, rng: &mut Rng, style: usize) -> RefTree {
+    let chars: Vec<char> = s.chars().collect();
+    let mut cs = vec![];
+    let mut i = 0;
+    while i < chars.len() {
+        let n = match style {
+            0 => chars.len(),
+            1 => 1,
+            2 => 2,
+            _ => 1 + rng.below(3),
+        }
+        .min(chars.len() - i);
+        let piece: String = chars[i..i + n].iter().collect();
+        i += n;
+        let tok = if piece == "+" && rng.chance(1, 2) { RefTree::Tok(12, piece) } else { RefTree::Tok(*rng.pick(&[10u32, 11, 15][..]), piece) };
+        match rng.below(6) {
+            0 => cs.push(RefTree::Node(1, vec![tok])),
+            1 => {
+                cs.push(RefTree::Tok(10, String::new()));
+                cs.push(tok);
+            }
+            2 => {
+                cs.push(tok);
+                cs.push(RefTree::Node(2, vec![]));
+            }
+            _ => cs.push(tok),
+        }
+    }
+    if style == 3 && cs.len() >= 2 {
+        // nest the tail
+        let tail = cs.split_off(cs.len() / 2);
+        cs.push(RefTree::Node(3, tail));
+    }
+    RefTree::Node(0, cs)
+}
+
+fn boundaries(s: &str) -> Vec<usize> {
+    let mut v: Vec<usize> = s.char_indices().map(|(i, _)| i).collect();
+    v.push(s.len());
+    v
+}
+
+/// C12: the text view against the string it denotes
+pub fn gen_text(seed: u64, tier: &str) -> Vec<String> {
+    let mut rng = Rng::new(seed ^ 0xC12);
+    let mut out = Out { lines: vec![], next_id: 0 };
+    header(&mut out.lines);
+    let mut case = 0usize;
+    let alphabet = ['a', 'b', '+', 'é', '→'];
+    let probes = ['a', '+', 'é', '→', 'z', '\u{1F600}'];
+    // all texts up to `maxc` characters over a 3-letter sub-alphabet + random longer ones
+    let maxc = if tier == "thorough" { 4 } else { 3 };
+    let mut texts: Vec<String> = vec![String::new()];
+    let sub = ['a', 'é', '→'];
+    let mut frontier: Vec<String> = vec![String::new()];
+    for _ in 0..maxc {
+        let mut next = vec![];
+        for t in &frontier {
+            for c in sub {
+                let mut u = t.clone();
+                u.push(c);
+                next.push(u);
+            }
+        }
+        texts.extend(next.iter().cloned());
+        frontier = next;
+    }
+    let n_random = if tier == "thorough" { 1500 } else { 120 };
+    for _ in 0..n_random {
+        let n = 4 + rng.below(14);
+        texts.push((0..n).map(|_| *rng.pick(&alphabet[..])).collect());
+    }
+    for (ti, s1) in texts.iter().enumerate() {
+        // second text: same / one character changed / a prefix / an extension
+        let s2: String = match ti % 4 {
+            0 => s1.clone(),
+            1 => {
+                let mut cs: Vec<char> = s1.chars().collect();
+                if !cs.is_empty() {
+                    let i = rng.below(cs.len());
+                    cs[i] = if cs[i] == 'a' { 'b' } else { 'a' };
+                }
+                cs.into_iter().collect()
+            }
+            2 => s1.chars().take(s1.chars().count() / 2).collect(),
+            _ => format!("{}{}", s1, rng.pick(&alphabet[..])),
+        };
+        let t1 = chunk_tree(s1, &mut rng, ti % 4);
+        let st2 = (ti + 1 + rng.below(3)) % 4;
+        let t2 = chunk_tree(&s2, &mut rng, st2);
+        start_case(&mut out, &mut case, &t1, &mut rng, if ti % 2 == 0 { "user" } else { backends()[0] });
+        out.lines.push("builder c0".into());
+        emit_tree(&t2, &mut out.lines, &mut rng);
+        out.lines.push("finish".into());
+        let s1e = Sim::new(&t1, "g0", &mut out);
+        let root1 = s1e.eid(0);
+        let s2e = Sim::new(&t2, "g1", &mut out);
+        let root2 = s2e.eid(0);
+        out.lines.push(format!("view e{}", root1)); // v0
+        out.lines.push(format!("view e{}", root2)); // v1
+        let mut nv = 2usize;
+        let mut views: Vec<(usize, String)> = vec![(0, s1.clone()), (1, s2.clone())];
+        // slices with character-boundary ends (all of them for short texts)
+        let b1 = boundaries(s1);
+        let mut pairs = vec![];
+        for (i, a) in b1.iter().enumerate() {
+            for b in &b1[i..] {
+                pairs.push((*a, *b));
+            }
+        }
+        if pairs.len() > 24 {
+            let mut sel = vec![];
+            for _ in 0..24 {
+                sel.push(*rng.pick(&pairs));
+            }
+            pairs = sel;
+        }
+        for (k, (a, b)) in pairs.iter().enumerate() {
+            let (sa, sb) = match k % 5 {
+                0 if *b == s1.len() => (a.to_string(), "-".to_string()),
+                1 if *a == 0 => ("-".to_string(), b.to_string()),
+                2 if *a == 0 && *b == s1.len() => ("-".to_string(), "-".to_string()),
+                _ => (a.to_string(), b.to_string()),
+            };
+            out.lines.push(format!("vslice v0 {} {}", sa, sb));
+            views.push((nv, s1[*a..*b].to_string()));
+            nv += 1;
+        }
+        // a slice of a slice, and slices of the second view
+        if let Some((vi, vs)) = views.get(2 + rng.below(views.len().saturating_sub(2).max(1))).cloned() {
+            let bs = boundaries(&vs);
+            let a = *rng.pick(&bs);
+            let b = *rng.pick(&bs);
+            if a <= b {
+                out.lines.push(format!("vslice v{} {} {}", vi, a, b));
+                views.push((nv, vs[a..b].to_string()));
+                nv += 1;
+            }
+        }
+        let b2 = boundaries(&s2);
+        for _ in 0..4 {
+            let a = *rng.pick(&b2);
+            let b = *rng.pick(&b2);
+            if a <= b {
+                out.lines.push(format!("vslice v1 {} {}", a, b));
+                views.push((nv, s2[a..b].to_string()));
+                nv += 1;
+            }
+        }
+        // outside the view / reversed: must panic
+        out.lines.push(format!("vslice v0 0 {}", s1.len() + 1));
+        out.lines.push(format!("vslice v0 {} {}", s1.len() + 1, s1.len() + 1));
+        if s1.len() >= 1 {
+            out.lines.push("vslice v0 1 0".into());
+        }
+        // every query on every view
+        for (vi, vs) in &views {
+            out.lines.push(format!("vop v{} len", vi));
+            out.lines.push(format!("vop v{} is_empty", vi));
+            out.lines.push(format!("vop v{} to_string", vi));
+            out.lines.push(format!("vop v{} chunks", vi));
+            for p in probes {
+                out.lines.push(format!("vop v{} contains {}", vi, hex(&p.to_string())));
+                out.lines.push(format!("vop v{} find {}", vi, hex(&p.to_string())));
+            }
+            for off in boundaries(vs) {
+                out.lines.push(format!("vop v{} char_at {}", vi, off));
+            }
+            out.lines.push(format!("vop v{} char_at {}", vi, vs.len() + 3));
+            out.lines.push(format!("vop v{} eqstr {}", vi, hex(vs)));
+            out.lines.push(format!("vop v{} eqstr {}", vi, hex(&format!("{}a", vs))));
+            if !vs.is_empty() {
+                let pre: String = vs.chars().take(vs.chars().count() - 1).collect();
+                out.lines.push(format!("vop v{} eqstr {}", vi, hex(&pre)));
+                let mut cs: Vec<char> = vs.chars().collect();
+                cs[0] = if cs[0] == 'z' { 'y' } else { 'z' };
+                out.lines.push(format!("vop v{} eqstr {}", vi, hex(&cs.into_iter().collect::<String>())));
+            }
+        }
+        // view against view: all pairs for short lists, random pairs otherwise
+        let nvs = views.len();
+        let mut vp = vec![];
+        for i in 0..nvs {
+            for j in 0..nvs {
+                vp.push((i, j));
+            }
+        }
+        if vp.len() > 60 {
+            let mut sel = vec![(0, 1), (1, 0), (0, 0)];
+            for _ in 0..57 {
+                sel.push(*rng.pick(&vp));
+            }
+            vp = sel;
+        }
+        for (i, j) in vp {
+            out.lines.push(format!("veq v{} v{}", views[i].0, views[j].0));
+        }
+    }
+    out.lines
+}
